@@ -219,6 +219,47 @@ fn run(ctx: &mut Ctx) {
             });
         }
     }
+    // ---------------- (a3) sparse images: everything zero (or all-ones) except one or two fields
+    ctx.bound("sparse_images", "every kind: the first sample image with every freely variable body byte set to 00 (and to FF), then every single 32-bit word and every adjacent pair of words restored to the sample's (marker) value: a field is special-cased only when its neighbours are zero / all-ones");
+    for kind in 0..=21u32 {
+        let img = variants(kind).into_iter().next().unwrap();
+        for fillv in [0x00u8, 0xFF] {
+            let mut base = img.clone();
+            for p in 8..img.len() {
+                if legal(kind, &img, p, fillv) && !(kind == bi::ACPI2 && (28..32).contains(&p) && fillv == 0xFF) {
+                    base[p] = fillv;
+                }
+            }
+            let words: Vec<usize> = (8..img.len().saturating_sub(3)).step_by(4).collect();
+            let mut cases: Vec<Vec<usize>> = vec![vec![]];
+            if kind != bi::VBE {
+                for (i, &w) in words.iter().enumerate() {
+                    cases.push(vec![w]);
+                    if let Some(&w2) = words.get(i + 1) {
+                        cases.push(vec![w, w2]);
+                    }
+                    if let Some(&w3) = words.get(i + 2) {
+                        cases.push(vec![w, w3]);
+                    }
+                }
+            }
+            for case in cases {
+                let mut t = base.clone();
+                for &w in &case {
+                    t[w..w + 4].copy_from_slice(&img[w..w + 4]);
+                }
+                let filler = bi::sample(other_kind(kind), 9, 0);
+                let region = bi::region(&[filler, t, bi::end_tag()], &bi::marker_pad);
+                let describe = || J::obj().set("part", "sparse_images").set("kind", bi::kind_name(kind)).set("fill", fillv).set("words_kept", J::Arr(case.iter().map(|w| J::from(*w)).collect())).set("region", J::hex(&region[..region.len().min(160)]));
+                ctx.leaf(describe, |ctx| {
+                    ctx.state(hash::hash_bytes(&region));
+                    ctx.nontrivial();
+                    let want = expected_for(&region, kind);
+                    check_getter(ctx, &arena, &region, kind, want, "sparse_images");
+                });
+            }
+        }
+    }
     // ---------------- (b) selection
     let maxlen = if ctx.quick() { 3 } else { 4 };
     ctx.bound("selection", format!("per kind: all tag sequences of length <= {} over {{instance 1, instance 2, another kind, custom, end}} + final end tag; all 22 x 22 ordered pairs of kinds with all 22 getters", maxlen));
@@ -352,6 +393,38 @@ fn run(ctx: &mut Ctx) {
             });
         }
     }
+    // ---------------- (b3) deep regions: the wanted tag comes after hundreds or thousands of other tags
+    let deep_ns: Vec<usize> = if ctx.quick() { vec![254, 255, 256, 257, 1000, 8192] } else { vec![127, 128, 254, 255, 256, 257, 258, 1000, 4095, 4096, 8192, 65535, 65536, 65537] };
+    ctx.bound("deep_regions", format!("N minimal custom tags (N modules in a second variant) in front of one instance of every kind, N in {:?}; all 22 getters", deep_ns));
+    let deep_arena = Arena::new(1100);
+    for &n in &deep_ns {
+        for modules in [false, true] {
+            let mut tags: Vec<Vec<u8>> = vec![];
+            for i in 0..n {
+                if modules {
+                    tags.push(bi::enc_module(i as u32, i as u32 + 1, b"m\0").to_vec());
+                } else {
+                    tags.push(bi::tag(0x1337, &[]));
+                }
+            }
+            for k in 1..=21u32 {
+                if k != bi::EFI_BS {
+                    tags.push(bi::sample(k, 1, 1));
+                }
+            }
+            tags.push(bi::end_tag());
+            let region = bi::region(&tags, &bi::zero_pad);
+            let describe = || J::obj().set("part", "deep_regions").set("tags_in_front", n).set("front_kind", if modules { "module" } else { "custom, header only" }).set("region_len", region.len());
+            ctx.leaf(describe, |ctx| {
+                ctx.state(hash::hash_bytes(&region));
+                ctx.nontrivial();
+                for g in 0..=21u32 {
+                    let want = expected_for(&region, g);
+                    check_getter(ctx, &deep_arena, &region, g, want, "deep_regions");
+                }
+            });
+        }
+    }
     // ---------------- (c) EFI withholding rule
     ctx.bound("efi_rule", "all sequences of length <= 4 over {EfiMmap, EfiBs, other}: the EFI memory map is withheld while a boot-services-not-exited tag is present anywhere");
     for len in 0..=4 {
@@ -452,14 +525,48 @@ fn run(ctx: &mut Ctx) {
             }
         }
     }
+    // ---------------- (e3) RSDPv2 stored length: every length, the bytes it covers summing to 0
+    ctx.bound("rsdp_length", "RSDPv2: stored length 0..=48 + EDGE32, with the extended checksum byte (or, for lengths up to 32, the last covered byte) adjusted so that the first min(length, 40) bytes sum to 0, and to 1: valid exactly when the length is at most 36 and the covered bytes sum to 0");
+    {
+        let mut lens: Vec<u32> = (0..=48).collect();
+        lens.extend(EDGE32.iter().copied().filter(|e| *e > 48));
+        for l in lens {
+            for target in [0u8, 1] {
+                let mut t = bi::sample(bi::ACPI2, 4, 0);
+                while t.len() < 48 {
+                    t.push(0);
+                }
+                wr32(&mut t, 28, l);
+                let cover = (l as usize).min(40);
+                if cover >= 1 {
+                    // the byte that compensates: the extended checksum when covered, else the last covered byte outside the length field
+                    let at = if cover > 32 { 40 } else if (21..=24).contains(&cover) { 8 + 19 } else { 8 + cover - 1 };
+                    let at = if (28..32).contains(&at) { 27 } else { at };
+                    if at < 8 + cover {
+                        t[at] = 0;
+                        let s: u8 = t[8..8 + cover].iter().fold(0u8, |a, b| a.wrapping_add(*b));
+                        t[at] = target.wrapping_sub(s);
+                    }
+                }
+                t.truncate(44);
+                let region = bi::region(&[t, bi::end_tag()], &bi::zero_pad);
+                let describe = || J::obj().set("part", "rsdp_length").set("stored_length", l).set("covered_sum", target).set("region", J::hex(&region));
+                ctx.leaf(describe, |ctx| {
+                    ctx.state(hash::hash_bytes(&region));
+                    ctx.nontrivial();
+                    check_getter(ctx, &arena, &region, bi::ACPI2, Some(8), "rsdp_length");
+                });
+            }
+        }
+    }
     // ---------------- (f) counts around 8- and 16-bit boundaries
-    ctx.bound("large_counts", "framebuffer palettes of 254..=257 and 1000 colours, memory maps of 255..=257 entries, EFI maps of 255..=257 descriptors, strings / SMBIOS / network contents of 254..=257 and 65534..=65537 bytes");
+    ctx.bound("large_counts", "framebuffer palettes of 254..=257, 1000, 21845, 21846, 43690, 43691 (3 x count crosses 2^16 / 2^17), 65534 and 65535 colours, memory maps and EFI maps of 255..=257, 2730, 2731, 4096 and 65535..=65537 entries, strings / SMBIOS / network contents of 254..=257 and 65534..=65537 bytes");
     let mut big: Vec<(u32, Vec<u8>)> = vec![];
-    for n in [254usize, 255, 256, 257, 1000] {
+    for n in [254usize, 255, 256, 257, 1000, 21845, 21846, 43690, 43691, 65534, 65535] {
         let pal: Vec<(u8, u8, u8)> = (0..n).map(|i| ((i * 3) as u8, (i * 5 + 1) as u8, (i * 7 + 2) as u8)).collect();
         big.push((bi::FRAMEBUFFER, bi::enc_framebuffer(0xA0000, 320, 320, 200, 8, 0, &bi::enc_palette(&pal))));
     }
-    for n in [255usize, 256, 257] {
+    for n in [255usize, 256, 257, 2730, 2731, 4096, 65535, 65536, 65537] {
         big.push((bi::MMAP, bi::sample(bi::MMAP, 3, n)));
         big.push((bi::EFI_MMAP, bi::sample(bi::EFI_MMAP, 3, n)));
     }
@@ -468,7 +575,7 @@ fn run(ctx: &mut Ctx) {
             big.push((k, bi::sample(k, 3, n)));
         }
     }
-    let big_arena = Arena::new(40);
+    let big_arena = Arena::new(1200);
     for (kind, t) in big {
         let region = bi::region(&[bi::sample(other_kind(kind), 9, 0), t, bi::end_tag()], &bi::marker_pad);
         let describe = || J::obj().set("part", "large_counts").set("kind", bi::kind_name(kind)).set("tag_size", rd32(&region, 8 + 16 + 4)).set("region_head", J::hex(&region[..64]));
